@@ -6,7 +6,7 @@
    the regenerated summary of the constructor the predicate's DSL path is wired to. *)
 From Coq Require Import List ZArith Bool String Lia.
 From RG.Base Require Import Outcome.
-From RG.Filters Require Import ExprFacts FilterIR FilterAlgebra Predicates FilterEval FileFacts.
+From RG.Filters Require Import ExprFacts FilterIR FilterAlgebra Predicates FilterEval FileFacts ValueSources.
 From RGW Require Import Gen_FilterTables Gen_FilterPreds Inst_C02.
 Import ListNotations.
 Local Open Scope string_scope.
@@ -156,6 +156,63 @@ Print Assumptions C02_sink_of_assignment.
 Theorem C02_sink_of_return : forall rs i, find_sink (PReturn (Some i) (Some rs)) = nth i rs no_sink.
 Proof. exact sink_of_return. Qed.
 Print Assumptions C02_sink_of_return.
+
+(* ... per RESULT of the innermost function around the statement, however the result list groups its names into fields *)
+Theorem C02_sink_of_return_operand : forall pre lit fpre k t fpost post i,
+  (forall n, In n pre -> n = NOtherNode) ->
+  List.length (declared_results fpre) <= i < List.length (declared_results fpre) + Nat.max 1 k ->
+  find_sink (return_parent (Some i) (pre ++ NFunc lit (fpre ++ (k, t) :: fpost) :: post)%list) = t.
+Proof. exact sink_of_return_operand. Qed.
+Print Assumptions C02_sink_of_return_operand.
+
+Theorem C02_sink_of_return_beyond : forall fs i, List.length (declared_results fs) <= i ->
+  find_sink (PReturn (Some i) (Some (declared_results fs))) = no_sink.
+Proof. exact sink_of_return_beyond. Qed.
+Print Assumptions C02_sink_of_return_beyond.
+
+(* numbering the operands by field of the result list is the same function only when no field declares two names *)
+Theorem C02_return_by_field_agrees_ungrouped : forall fs, (forall f, In f fs -> fst f <= 1) -> map snd fs = declared_results fs.
+Proof. exact by_field_agrees_ungrouped. Qed.
+Print Assumptions C02_return_by_field_agrees_ungrouped.
+
+Theorem C02_return_by_field_refuted : forall k t u post, 2 <= k -> t <> u ->
+  exists i, i < List.length (declared_results ((k, t) :: (1, u) :: post))
+    /\ by_field ((k, t) :: (1, u) :: post) i <> find_sink (PReturn (Some i) (Some (declared_results ((k, t) :: (1, u) :: post)))).
+Proof. exact by_field_refuted. Qed.
+Print Assumptions C02_return_by_field_refuted.
+
+(* `func f() (first, second error, n int) { return mk(1), mk(2), 0 }`: mk(2) sinks into error; inside a literal nested in f, the literal decides *)
+Example c02_demo_grouped_results :
+  find_sink (return_parent (Some 1%nat) [NOtherNode; NFunc false [(2%nat, "error"); (1%nat, "int")]; NOtherNode]) = "error" /\
+  find_sink (return_parent (Some 2%nat) [NOtherNode; NFunc false [(2%nat, "error"); (1%nat, "int")]; NOtherNode]) = "int" /\
+  find_sink (return_parent (Some 1%nat) [NOtherNode; NFunc true [(1%nat, "string"); (2%nat, "int")]; NOtherNode; NFunc false [(2%nat, "error"); (1%nat, "int")]]) = "int" /\
+  find_sink (return_parent (Some 0%nat) [NOtherNode; NOtherNode]) = no_sink.
+Proof. repeat split. Qed.
+
+(* ---------------------------------------------------------------- Text: the source bytes of the capture's extent *)
+Theorem C02_text_source_as_audited : value_sources_okb gen_value_sources = true.
+Proof. exact text_source_ok. Qed.
+Print Assumptions C02_text_source_as_audited.
+
+(* on a file whose bytes can be read back, a capture that starts inside the file and ends at or before its END -- the end of an
+   extent is exclusive: a capture whose last byte is the file's last byte has tn_to = the file's length -- has its source bytes
+   as Text *)
+Theorem C02_text_is_source_up_to_eof : forall file n,
+  (tn_from n < String.length file)%nat -> (tn_from n <= tn_to n)%nat -> (tn_to n <= String.length file)%nat ->
+  node_text file n = substring (tn_from n) (extent n) file.
+Proof. exact node_text_is_source_up_to_eof. Qed.
+Print Assumptions C02_text_is_source_up_to_eof.
+
+Theorem C02_text_end_test_exclusive_refuted :
+  exists file n c, in_file file n = true /\ String.eqb (node_text file n) c = true
+    /\ String.eqb (if in_file_both_ends_exclusive file n then substring (tn_from n) (extent n) file else tn_printed n) c = false.
+Proof. exact both_ends_exclusive_refuted. Qed.
+Print Assumptions C02_text_end_test_exclusive_refuted.
+
+Theorem C02_text_end_test_exclusive_differs_exactly_at_eof : forall file n, in_file file n = true ->
+  (in_file_both_ends_exclusive file n = false <-> tn_to n = String.length file).
+Proof. exact both_ends_exclusive_differs_exactly_at_eof. Qed.
+Print Assumptions C02_text_end_test_exclusive_differs_exactly_at_eof.
 
 Theorem C02_sink_of_struct_field : forall fs name t key_side, assoc name fs = Some t ->
   find_sink (PComposite (LStruct fs) (Some (key_side, name)) None) = t.
